@@ -308,8 +308,9 @@ func (v *Verifier) typeInv(st *State, x Term, t types.Type) Term {
 			return And(Le(IntLit(0), x), Le(x, st.alloc))
 		}
 	case SSlice:
+		// a backing array has at most 2^56 elements (assumption): offset + capacity stay below that
 		return And(Le(IntLit(0), SlLen(x)), Le(SlLen(x), SlCap(x)), Le(SlCap(x), Term{S: "72057594037927936", Sort: SInt}),
-			Le(IntLit(0), SlOff(x)), Le(IntLit(0), SlArr(x)), Le(SlArr(x), st.alloc),
+			Le(IntLit(0), SlOff(x)), Le(Add(SlOff(x), SlCap(x)), Term{S: "72057594037927936", Sort: SInt}), Le(IntLit(0), SlArr(x)), Le(SlArr(x), st.alloc),
 			Imp(Ident(SlArr(x), IntLit(0)), Ident(SlCap(x), IntLit(0))))
 	case SVal:
 		return Term{S: "(wfval " + x.S + ")", Sort: SBool}
